@@ -99,6 +99,11 @@ def scenarios(ck):
                     res.append(('ag', n, {i: b}))
                 for written in (0, 1, None):
                     res.append(('dpseg', n, {i: dict(written=written, how=list(how))}))
+                # the program closes its output streams and dies a little later (the wrapper
+                # sees EOF while the process is alive): same fate, same required outcome
+                if ck.thorough or how in (HOWS[0], HOWS[-1]):
+                    res.append(('dpseg', n, {i: dict(written=None, how=list(how), late=True)}))
+                    res.append(('ag', n, {i: dict(complete=None, how=list(how), late=True)}))
     if ck.thorough:
         # two simultaneous failures, and parallel runs
         for n in (2, 3):
